@@ -269,8 +269,16 @@ func (g *G) IllTyped(d int) Expr {
 	default:
 		bad = &Bin{Op: cmpOps[g.R.Intn(6)], L: g.StrLeaf(), R: g.BoolLeaf()}
 	}
-	// optionally put it as the LEFT operand of a larger expression
-	switch g.R.Intn(4) {
+	// optionally put it as an operand of a larger expression (also as the RIGHT operand of a
+	// logic operator whose left side already decides the result)
+	switch g.R.Intn(6) {
+	case 4:
+		if ClassOfExprGuess(bad) == CBool {
+			return &Bin{Op: []string{"&&", "||"}[g.R.Intn(2)], L: g.BoolLeaf(), R: &Paren{bad}}
+		}
+		return &Bin{Op: []string{"&&", "||"}[g.R.Intn(2)], L: g.BoolLeaf(), R: &Paren{&Bin{Op: cmpOps[g.R.Intn(6)], L: bad, R: g.NumLeaf()}}}
+	case 5:
+		return &Bin{Op: "&&", L: &Lit{V: false, Text: "false"}, R: &Paren{&Bin{Op: "==", L: &Paren{bad}, R: &Paren{bad}}}}
 	case 0:
 		if ClassOfExprGuess(bad) == CBool {
 			return &Bin{Op: []string{"&&", "||"}[g.R.Intn(2)], L: bad, R: g.BoolLeaf()}
